@@ -1102,6 +1102,9 @@ sexp sexp_apply (sexp ctx, sexp proc, sexp args) {
 
  loop:
 #if SEXP_USE_GREEN_THREADS
+#if CHIBI_VERIF
+  if (sexp_verif.on_instr && fuel > 1) fuel = sexp_verif.on_instr(ctx, ip, fuel);
+#endif
   if (--fuel <= 0) {
     if (sexp_context_interruptp(ctx)) {
       fuel = sexp_context_refuel(ctx);
